@@ -47,10 +47,16 @@ func commitEnv(author, date string) []string {
 		"GIT_CONFIG_NOSYSTEM=1", "HOME=/nonexistent"}
 }
 
+// a second, unrelated history: parsed between obtaining a result and looking at it
+const decoyLog = "[d0d0d0d] Decoy Author 2001-01-01 decoy: one\n\n3\t1\tdecoy/a.txt\n create mode 100644 decoy/a.txt\n\n[d0d0d0e] Decoy Author 2001-01-02 decoy: two\n\n1\t1\tdecoy/a.txt\n"
+
 func init() {
 	// (raw expected) -> parsed commits (library entry point)
 	register("C14.parse", func(in Sx) Sx {
-		return sxOfCommits(git.BuildMessageByInput(in.Nth(0).Str()))
+		// the result is held across another parse before it is serialised (a caller may keep it)
+		commits := git.BuildMessageByInput(in.Nth(0).Str())
+		_ = git.BuildMessageByInput(decoyLog)
+		return sxOfCommits(commits)
 	})
 
 	// (script (git-arg ...)) -> (raw-log parsed-by-`coca git` parsed-by-library truth)
@@ -98,7 +104,11 @@ func init() {
 		}
 		// the log exactly as cmd/git.go asks for it
 		raw := mustGit(dir, base, in.Nth(1).StrList()...)
-		lib := runCase(func(Sx) Sx { return sxOfCommits(git.BuildMessageByInput(raw)) }, A(""))
+		lib := runCase(func(Sx) Sx {
+			commits := git.BuildMessageByInput(raw)
+			_ = git.BuildMessageByInput(decoyLog)
+			return sxOfCommits(commits)
+		}, A(""))
 		// the CLI path
 		cli := L(A("!NOCLI"))
 		if bin := os.Getenv("COCA_BIN"); bin != "" {
